@@ -28,6 +28,7 @@ func init() {
 	register("C09", &core.Rule{ID: "C09.3", Title: "config validation truth table", Mod: core.ModCBP, Floor: 2, Run: c09_3})
 	register("C09", &core.Rule{ID: "C09.4", Title: "flush-loop and timer-existence guards", Mod: core.ModCBP, Floor: 2, Run: c09_4})
 	register("C09", &core.Rule{ID: "C09.5", Title: "timer is re-armed on every timer/flush path", Mod: core.ModCBP, Floor: 2, Run: c09_5})
+	register("C09", &core.Rule{ID: "C09.7", Title: "the flush timer is re-armed only after a send or its own tick, never by a mere arrival", Mod: core.ModCBP, Floor: 1, Run: c09_7})
 	register("C09", &core.Rule{ID: "C09.6", Title: "capacity tests in split callbacks read live state (a stale capacity overshoots send_batch_max_size)", Mod: core.ModCBP, Floor: 10, Run: c05_10, Canary: c05_10Canary})
 	register("C05", &core.Rule{ID: "C05.11", Title: "split arm entered only when count>max (the splitter returns its argument itself otherwise)", Mod: core.ModCBP, Floor: 3, Run: c09_2})
 }
@@ -657,6 +658,115 @@ func c09_5(c *core.Ctx, p *core.Prog) {
 				"after a size-triggered send a path returns without re-arming the timer: the next items wait for a stale (shorter or never-firing) deadline")
 		})
 	}
+}
+
+// C09.7 the deadline is not pushed back by arrivals. The flush timer may be re-armed by its own
+// tick and after a send; a re-arm on a path that merely accepted an item (no send) measures the
+// interval from the last arrival instead of the last flush, so a steady trickle below
+// send_batch_size is never flushed by timeout.
+func c09_7(c *core.Ctx, p *core.Prog) {
+	a := newCBPAnchors(p)
+	if !a.ok(c) {
+		return
+	}
+	m := a.more()
+	if !m.ok(c) {
+		return
+	}
+	var timerField *types.Var
+	st := a.shard.Underlying().(*types.Struct)
+	for i := 0; i < st.NumFields(); i++ {
+		if core.TypePkgPath(st.Field(i).Type()) == "time" && core.TypeName(st.Field(i).Type()) == "Timer" {
+			timerField = st.Field(i)
+		}
+	}
+	if timerField == nil {
+		c.Undecided("anchors", "?", "", "shard has no *time.Timer field")
+		return
+	}
+	directReset := func(i ssa.Instruction) bool {
+		cl, ok := i.(*ssa.Call)
+		return ok && core.IsMethodOf(core.CalleeObj(cl), "time", "Timer", "Reset")
+	}
+	canSend := map[*ssa.Function]bool{}
+	var sends func(f *ssa.Function, depth int) bool
+	sends = func(f *ssa.Function, depth int) bool {
+		if v, ok := canSend[f]; ok {
+			return v
+		}
+		canSend[f] = false
+		r := false
+		core.EachInstr(f, func(i ssa.Instruction) {
+			if isCallTo(i, a.sendFn) {
+				r = true
+			}
+			if cl, ok := i.(*ssa.Call); ok && depth < 3 {
+				if callee := cl.Call.StaticCallee(); callee != nil && core.FnPkgPath(callee) == core.CBPPath && callee != f && sends(callee, depth+1) {
+					r = true
+				}
+			}
+		})
+		canSend[f] = r
+		return r
+	}
+	isReset := func(i ssa.Instruction) bool {
+		if directReset(i) {
+			return true
+		}
+		cl, ok := i.(*ssa.Call)
+		if !ok {
+			return false
+		}
+		if callee := cl.Call.StaticCallee(); callee != nil && core.FnPkgPath(callee) == core.CBPPath && !sends(callee, 0) {
+			return resetsTimer(callee, timerField, 0)
+		}
+		return false
+	}
+	isSend := func(i ssa.Instruction) bool {
+		if isCallTo(i, a.sendFn) {
+			return true
+		}
+		return false
+	}
+	n := 0
+	for _, f := range cbpFuncs(c, p) {
+		if f == m.loopFn || f.Parent() != nil || !sends(f, 0) && !containsDirectCallTo(f, isReset) {
+			continue
+		}
+		// reset wrappers themselves (no send capability, only timer operations) are not arrival paths
+		if !sends(f, 0) {
+			pure := true
+			core.EachInstr(f, func(i ssa.Instruction) {
+				if ci, ok := i.(ssa.CallInstruction); ok && ci.Common().IsInvoke() && (ci.Common().Method == a.mAdd || ci.Common().Method == a.mCount) {
+					pure = false
+				}
+			})
+			if pure {
+				continue
+			}
+		}
+		core.EachInstr(f, func(i ssa.Instruction) {
+			if !isReset(i) {
+				return
+			}
+			n++
+			noSend, _ := (core.PathQuery{Fn: f, To: i, Avoid: isSend}).Exists()
+			c.Check(!noSend, fmt.Sprintf("rearm#%d@%s", n, core.FuncName(f)), p.Pos(i.Pos()), core.FuncName(f),
+				"the timer is re-armed only on paths that sent a batch",
+				"the flush timer is re-armed on a path that sent nothing (an item was merely accepted): every arrival pushes the deadline back, so a steady trickle of small requests waits far longer than the timeout")
+		})
+	}
+	c.Stats["C09.7 re-arm sites outside the shard loop"] = n
+}
+
+func containsDirectCallTo(f *ssa.Function, pred func(ssa.Instruction) bool) bool {
+	r := false
+	core.EachInstr(f, func(i ssa.Instruction) {
+		if pred(i) {
+			r = true
+		}
+	})
+	return r
 }
 
 func debugFieldName(v *types.Var) string {
